@@ -11,6 +11,21 @@ CHECKS = {
          "Trusts the Go toolchain; states are reached through the public API only.", "5/C11"),
 }
 
+CHECKS.update({
+ "C06": ("crypto", "reference-model monitor: every call compared with independent SNOW 3G / AES-CTR / ZUC models validated on published vectors",
+         "Runs NASEncrypt, NEA1/2/3 and the raw keystream generators on generated parameter tuples (every bit length 0..1100/2200 and 2^k boundaries, all 64 bearer×direction values, structured and random keys/counts) and compares the first LENGTH bits with reference implementations written from the specifications. Sampled, not exhaustive: held on the tuples observed.",
+         "Trusts crypto/aes as the block primitive, the reference models (validated on 43 published vectors at every run start) and the Go toolchain.", "5/C06"),
+ "C07": ("crypto", "reference-model monitor: every MAC compared with independent UIA2-f9 / AES-CMAC / EIA3 models, clean and dirty tails",
+         "Runs NASMacCalculate and NIA1/2/3 on generated tuples (every bit length 0..1100/2200 and 2^k boundaries, all bearer×direction values, clean and dirty tails after the message end) and compares the 32-bit MAC with reference implementations. Sampled.",
+         "Same trusted base as C06; zero-length MACs are what the specifications' formulae give.", "5/C07"),
+ "C08": ("crypto", "law monitor (involution, prefix, keystream independence, NULL, validation) + exhaustive alg×bearer×direction validation grid with payload snapshots",
+         "Algebraic laws checked on every valid algorithm for payload lengths 0..300 and larger; the validation grid alg×bearer×direction is enumerated completely in thorough (2^24 points × 3 payload lengths × 2 functions) and for alg 0..7 × bearer 0..255 × direction 0..3 in quick; payload snapshots detect writes on error paths.",
+         "Keys are passed by value; laws need no reference model.", "5/C08"),
+ "C20": ("history", "recorded allocate/free histories replayed against a live-set model + hooked allocator state (H1); bounded-depth exhaustive enumeration and random histories",
+         "Every operation sequence up to depth 3/4 (full alphabet, ranges 1..4) and depth 7/9 (reduced alphabet, ranges 1..3) is executed on the real allocator, each event judged against a live-set model and the hooked internal state; random 1000-step histories on ranges up to 64 on top.",
+         "Hook H1 (build tag verif) reports real fields; arguments non-negative, min<=max.", "5/C20"),
+})
+
 NOT_YET = {
 }
 
